@@ -27,7 +27,7 @@ func init() {
 		}}},
 		Run: run,
 		Floors: func(t string) map[string]int64 {
-			m := map[string]int64{"pos.perturbed": 5000, "pos.empty_box_with_itself": 200, "base.two_different_members_with_one_bounding_box": 300, "pos.one_infinite_ordinate": 200, "pos.permuted": 2000, "pos.ring_rotated": 1000, "neg.type": 5000, "neg.member_inserted": 1000, "neg.member_deleted": 1000, "neg.vertex_inserted": 1000,
+			m := map[string]int64{"neg.closing_vertices_either_side_of_the_start": 400, "pos.perturbed": 5000, "pos.empty_box_with_itself": 200, "base.two_different_members_with_one_bounding_box": 300, "pos.one_infinite_ordinate": 200, "pos.permuted": 2000, "pos.ring_rotated": 1000, "neg.type": 5000, "neg.member_inserted": 1000, "neg.member_deleted": 1000, "neg.vertex_inserted": 1000,
 				"neg.vertex_deleted": 1000, "neg.reversed": 300, "neg.displaced": 2000, "unrelated": 1000, "base.many_members_60_to_140": 100, "base.with_duplicate_member": 300, "neg.ring_moved_to_sibling_polygon": 300, "base.coordinate_spacing_comparable_to_tol": 300, "base.ring_with_tied_leftmost_vertices": 500, "base.with_unclosed_ring": 500, "neg.closing_vertex_displaced": 500, "pos.perturbed_closing_vertex_on_its_own": 2000, "base.ring_through_one_vertex_twice": 300}
 			for _, n := range typeNames {
 				m["base."+n] = 100
